@@ -36,6 +36,7 @@ use astria_core::{
                 BridgeUnlock,
                 FeeAssetChange,
                 FeeChange,
+                CurrencyPairsChange,
                 IbcRelayerChange,
                 IbcSudoChange,
                 InitBridgeAccount,
@@ -351,6 +352,33 @@ pub(crate) fn family(name: &str) -> Vec<TxT> {
             tx("relayer-add-dave", &IBC_SUDO, vec![Action::IbcRelayerChange(IbcRelayerChange::Addition(addr(&DAVE)))]),
             tx("relayer-add-dave-by-sudo", &SUDO, vec![Action::IbcRelayerChange(IbcRelayerChange::Addition(addr(&DAVE)))]),
             tx("fee-transfer-5-by-alice", &ALICE, vec![fee_change_transfer(5, 0)]),
+            // every privileged action kind once by an account that holds no privilege, and the
+            // legitimate counterpart where it was missing
+            tx("fee-asset-add-other-by-alice", &ALICE, vec![Action::FeeAssetChange(FeeAssetChange::Addition(other_asset()))]),
+            tx("fee-asset-remove-fee2-by-bob", &BOB, vec![Action::FeeAssetChange(FeeAssetChange::Removal(fee2()))]),
+            tx("sudo-to-alice-by-alice", &ALICE, vec![Action::SudoAddressChange(SudoAddressChange {
+                new_address: addr(&ALICE),
+            })]),
+            tx("ibc-sudo-to-alice-by-alice", &ALICE, vec![Action::IbcSudoChange(IbcSudoChange {
+                new_address: addr(&ALICE),
+            })]),
+            tx("ibc-sudo-to-eve-by-sudo", &SUDO, vec![Action::IbcSudoChange(IbcSudoChange {
+                new_address: addr(&EVE),
+            })]),
+            tx("relayer-add-alice-by-alice", &ALICE, vec![Action::IbcRelayerChange(IbcRelayerChange::Addition(addr(&ALICE)))]),
+            tx("relayer-remove-ibc-sudo-by-bob", &BOB, vec![Action::IbcRelayerChange(IbcRelayerChange::Removal(addr(&IBC_SUDO)))]),
+            tx(
+                "pairs-remove-btc-by-alice",
+                &ALICE,
+                vec![Action::CurrencyPairsChange(CurrencyPairsChange::Removal(["BTC/USD".parse().unwrap()].into_iter().collect()))],
+            ),
+            tx(
+                "pairs-add-tia-by-sudo",
+                &SUDO,
+                vec![Action::CurrencyPairsChange(CurrencyPairsChange::Addition(["TIA/USD".parse().unwrap()].into_iter().collect()))],
+            ),
+            tx("br1-withdrawer-to-alice-by-alice", &ALICE, vec![bridge_sudo_change(&BR1, None, Some(&ALICE), false)]),
+            tx("bridge-transfer-br1-br2-by-alice", &ALICE, vec![bridge_transfer(&BR1, &BR2, 3, "e8")]),
         ],
         other => panic!("unknown family {other}"),
     }
@@ -900,7 +928,10 @@ impl TModel {
                 || key.starts_with("price_feed/")
             {
                 Some(("sudo address", sudo))
-            } else if key == "ibc/sudo" || key.starts_with("ibc/relayer/") {
+            } else if key == "ibc/sudo" {
+                // who is IBC sudo is decided by the chain's sudo address (checked_actions/ibc_sudo_change.rs)
+                Some(("sudo address", sudo))
+            } else if key.starts_with("ibc/relayer/") {
                 Some(("IBC sudo address", ibc_sudo))
             } else if let Some(b) = key.strip_prefix("bridge/sudo/").or_else(|| key.strip_prefix("bridge/withdrawer/")) {
                 bridge_admin_authority(pre, b, signer)
